@@ -2,6 +2,7 @@ package scen
 
 import (
 	"fmt"
+	ibcexported "github.com/cosmos/ibc-go/v10/modules/core/exported"
 	"sort"
 	"strings"
 	"time"
@@ -268,6 +269,44 @@ func (w *vrWorker) build() {
 			}
 			w.stats.Count("clients-expired")
 			return c, vs
+		})
+	}
+	if w.cfg.Variant == "expiry" {
+		// governance recovers the expired light clients (what MsgRecoverClient leaves behind: an active
+		// client with a fresh consensus state); queued updates must then flow in order
+		w.tab.Add("recover(clients)", func(n engine.Node) (engine.Node, []V) {
+			x := n.(*vrNode)
+			pk, ck := p.PApp.IBCKeeper, w.w.CA.CApp.IBCKeeper
+			c := x.clone()
+			did := false
+			for _, cid := range w.cons {
+				l := c.L[cid]
+				cs, ok := c.C[cid]
+				if !ok || l.PClient == "" {
+					continue
+				}
+				if pk.ClientKeeper.GetClientStatus(c.P.Ctx, l.PClient) == ibcexported.Expired {
+					c.touchP()
+					ps := c.P
+					if env.ForceRefreshClient(&ps, pk, l.PClient, cs.Height(), cs.Time()) {
+						did = true
+					}
+					c.P = ps
+				}
+				if l.CClient != "" && ck.ClientKeeper.GetClientStatus(cs.Ctx, l.CClient) == ibcexported.Expired {
+					c.touchC(cid)
+					cs = c.C[cid]
+					if env.ForceRefreshClient(&cs, ck, l.CClient, c.P.Height(), c.P.Time()) {
+						did = true
+					}
+					c.C[cid] = cs
+				}
+			}
+			if !did {
+				return nil, nil
+			}
+			w.stats.Count("clients-recovered")
+			return c, nil
 		})
 	}
 	if w.cfg.Variant == "batch" || w.cfg.Variant == "expiry" || w.cfg.Variant == "latebatch" {
